@@ -1,0 +1,37 @@
+//go:build verif
+
+/*
+Copyright The ORAS Authors.
+Licensed under the Apache License, Version 2.0 (the "License");
+you may not use this file except in compliance with the License.
+You may obtain a copy of the License at
+
+http://www.apache.org/licenses/LICENSE-2.0
+
+Unless required by applicable law or agreed to in writing, software
+distributed under the License is distributed on an "AS IS" BASIS,
+WITHOUT WARRANTIES OR CONDITIONS OF ANY KIND, either express or implied.
+See the License for the specific language governing permissions and
+limitations under the License.
+*/
+
+package remote
+
+import ocispec "github.com/opencontainers/image-spec/specs-go/v1"
+
+// This file only re-exports unexported state for the verification harness
+// (property C14). It is compiled only with the build tag "verif".
+
+// VerifReferrersState returns the detected referrers capability of r:
+// 0 unknown, 1 supported, 2 unsupported.
+func VerifReferrersState(r *Repository) int32 { return r.loadReferrersState() }
+
+// VerifRemoveEmptyDescriptors re-exports removeEmptyDescriptors.
+func VerifRemoveEmptyDescriptors(descs []ocispec.Descriptor, hint int) []ocispec.Descriptor {
+	return removeEmptyDescriptors(descs, hint)
+}
+
+// VerifGenerateIndex re-exports generateIndex.
+func VerifGenerateIndex(manifests []ocispec.Descriptor) (ocispec.Descriptor, []byte, error) {
+	return generateIndex(manifests)
+}
